@@ -833,6 +833,7 @@ class MConn:
         self.progress_handler = None
         self.hook = None       # called before every statement: hook(kind, sql)
         self.fk_on = True      # wn._db.connect() switches enforcement on for a new connection
+        self.progress_in_statements = True   # False: harness injects progress faults itself
 
     @property
     def in_transaction(self):
@@ -943,7 +944,7 @@ class MCur:
             if a[1] == 'foreign_keys' and a[2] is not None and not conn.in_transaction:
                 conn.fk_on = a[2] in ('ON', '1', 'TRUE', 'YES')
             return self
-        if conn.progress_handler is not None:
+        if conn.progress_handler is not None and conn.progress_in_statements:
             # SQLite calls the progress handler every n VM instructions of a running statement
             # and interrupts the statement when it returns non-zero.  How many instructions a
             # statement takes depends on the size of the database, so the model lets the
